@@ -1,6 +1,6 @@
 #!/usr/bin/env python3
 """Runs every registered quick check on the unchanged tree under other seeds than the default (no alarm may be raised whatever
-the seed).  Evidence and work files go to a scratch directory so that /verif/evidence keeps the default-seed run.
+the seed).  Evidence files go to a scratch directory so that /verif/evidence keeps the default-seed run.
 
   tools/seedsweep.py 2 3 4 [--props C01,C02]"""
 import json, os, subprocess, sys, shutil, tempfile
@@ -16,7 +16,7 @@ scratch = tempfile.mkdtemp(prefix="verif-seeds-")
 bad = 0
 for sd in seeds:
     for pid in pids:
-        env = dict(os.environ, VERIF_SEED=sd, VERIF_TIER="quick", VERIF_WORK=os.path.join(scratch, "work"), VERIF_EVID=os.path.join(scratch, "evidence"))
+        env = dict(os.environ, VERIF_SEED=sd, VERIF_TIER="quick", VERIF_EVID=os.path.join(scratch, "evidence"))
         p = subprocess.run([sys.executable, os.path.join(V, "tools", "check.py"), pid], cwd=V, env=env, stdout=subprocess.PIPE, stderr=subprocess.STDOUT, text=True)
         last = [l for l in p.stdout.splitlines() if l.startswith(("OK ", "VIOLATION", "TOOL-ERROR", "KNOWN-FINDING"))]
         print("seed=%s %s rc=%d %s" % (sd, pid, p.returncode, " | ".join(last[:3])[:300]), flush=True)
